@@ -3,6 +3,7 @@ import Op2Model.Clm
 /-! group `clm` (C03, C05 part clm, C20 part clm), mirrored from harness/drv/clm.cpp -/
 namespace Driver
 open Op2 Op2.Clm
+namespace ClmDrv
 
 /-- `<hex>[+<n zero bytes>]` -/
 def content? (s : String) : Option Content :=
@@ -21,7 +22,7 @@ def safeRel (rel : Bytes) : Bool :=
   !rel.isEmpty && rel.head? != some 47 && rel.getLast? != some 47 && !rel.contains 0
     && !((rel.splitOn 47).any (· == [46, 46]))
 
-def showRes : Except Err Bytes → String
+def showClmRes : Except Err Bytes → String
   | .ok b => showBytes b
   | .error .alloc => "err:alloc"
   | .error _ => "err"
@@ -51,7 +52,7 @@ def clmPack (files : List (Bytes × Content)) : String :=
       let members := (List.range v.count).map fun i =>
         let nm := match v.name i with | .ok n => hexOfBytes n | .error _ => "err"
         let sz := match v.size i with | .ok n => toString n | .error _ => "err"
-        s!" {nm}|{sz}|{showRes (v.stream bytes i)}|{showWav (v.extractWav bytes i) (v.size i)}"
+        s!" {nm}|{sz}|{showClmRes (v.stream bytes i)}|{showWav (v.extractWav bytes i) (v.size i)}"
       s!"ok {showBytes bytes} {v.count}" ++ String.join members
 
 def clmPackList (files : List (Bytes × Content)) : String :=
@@ -67,7 +68,7 @@ def clmPackList (files : List (Bytes × Content)) : String :=
       let members := (List.range v.count).map fun i =>
         let nm := match v.name i with | .ok n => hexOfBytes n | .error _ => "err"
         let sz := match v.size i with | .ok n => toString n | .error _ => "err"
-        s!" {nm}|{sz}|{showRes (v.stream bytes i)}"
+        s!" {nm}|{sz}|{showClmRes (v.stream bytes i)}"
       s!"ok {v.count}" ++ String.join members
 
 def safeName (n : Bytes) : Bool := !n.isEmpty && n != [46] && n != [46, 46] && !n.contains 47
@@ -91,13 +92,13 @@ def clmOp (v : View) (file : Bytes) (op : String) : Option String :=
   | "c" => if rest.isEmpty then some (toString v.count) else none
   | "n" => do let i ← rest.toNat?; pure (match v.name (sizeT i) with | .ok n => hexOfBytes n | .error _ => "err")
   | "z" => do let i ← rest.toNat?; pure (match v.size (sizeT i) with | .ok n => toString n | .error _ => "err")
-  | "s" => do let i ← rest.toNat?; pure (showRes (v.stream file (sizeT i)))
+  | "s" => do let i ← rest.toNat?; pure (showClmRes (v.stream file (sizeT i)))
   | "x" => do let i ← rest.toNat?; pure (showWav (v.extractWav file (sizeT i)) (v.size (sizeT i)))
   | "i" => do let n ← bytesOfHex rest; pure (match v.index n with | .ok i => toString i | .error _ => "err")
   | "h" => do let n ← bytesOfHex rest; pure (showBool (v.contains n))
   | "S" => do
       let n ← bytesOfHex rest
-      pure (match v.index n with | .ok i => showRes (v.stream file i) | .error _ => "err")
+      pure (match v.index n with | .ok i => showClmRes (v.stream file i) | .error _ => "err")
   | "X" =>
       if !rest.isEmpty then none else
       let names := v.entries.map entryName
@@ -122,6 +123,8 @@ def clmOpen (c : Content) (ops : List String) : Option String :=
     let rs ← ops.mapM (clmOp v file)
     pure (joinWith "," rs ++ " fresh=1")
 
+end ClmDrv
+open ClmDrv in
 def handleClm (cmd : String) (args : List String) : Option String :=
   match cmd, args with
   | "clm.pack", files => do
